@@ -551,6 +551,14 @@ def install(T: Theory, instrument=True):
             return out
         return None
     T.filter_comprehension = filt
+
+    def instance_cached(interp, o, name, value):
+        """functools.cached_property stores its value on the instance: a value computed from traced data would leak a
+        tracer out of the trace (the next eager application, or another trace of the same object, reads it back)"""
+        if contains_traced(value):
+            ob(interp, f'value-cached-on-the-operator-({name})-must-be-static', False,
+               note=f'got {(traced_in(value) or [value])[0]!r}')
+    T.instance_cached = instance_cached
     return T
 
 
